@@ -21,6 +21,7 @@
   by the corpus, `corpus/C03/witnesses.json`).
 -/
 import Cel.Lemmas.Eval
+import Cel.Lemmas.PrimD
 namespace Cel.Props.C03
 open Cel
 
@@ -520,7 +521,19 @@ example : (Expr.macro .all (.list [.lit (.int 1)]) "x" (.lit (.int 5))).safe Pri
 example : obs (runI PrimD.sem (.macro .all (.list [.lit (.int 1)]) "x" (.lit (.int 5))) []) = .value (.int 5) := by rfl
 example : obs (runC PrimD.sem (.macro .all (.list [.lit (.int 1)]) "x" (.lit (.int 5))) []) = .value (.bool true) := by rfl
 
-/-! ### non-vacuity: the side conditions hold for ordinary expressions, absorbed errors included -/
+/-! ### non-vacuity: the hypotheses are satisfiable, the side conditions hold for ordinary expressions -/
+
+/-- `PrimLaws` holds for the driver's concrete primitives (int64 arithmetic with overflow errors, comparisons with
+their TypeError quirks, `in`, indexing, concatenation, size), totalised by reading "not modelled" as TypeError. -/
+theorem primLaws_satisfiable : PrimLaws PrimD.semT := PrimD.primLaws_semT
+
+/-- the main theorem instantiated: on the concrete semantics both runners agree on every `safe` expression the
+interpreter returns on -/
+theorem evalC_eq_evalI_concrete (e : Expr) (env : Env) (hs : e.safe PrimD.semT = true) (he : env.clean = true)
+    (v : Val) (hI : evalI PrimD.semT e env = .ok v) :
+    obs (runC PrimD.semT e env) = obs (runI PrimD.semT e env) :=
+  evalC_eq_evalI PrimD.semT PrimD.primLaws_semT e env hs he v hI
+
 
 /-- `true || [1, 2].map(x, x / 0)[0] > 0` (the D5 witness) is `safe`, and both runners give `true` -/
 def d5 : Expr := .or (.lit (.bool true))
@@ -537,5 +550,9 @@ def ex2 : Expr := .cond
 example : ex2.safe PrimD.sem = true := by decide
 example : obs (runI PrimD.sem ex2 []) = .value (.int 1) := by rfl
 example : obs (runC PrimD.sem ex2 []) = .value (.int 1) := by rfl
+
+example : d5.safe PrimD.semT = true := by decide
+example : obs (runC PrimD.semT d5 []) = obs (runI PrimD.semT d5 []) :=
+  evalC_eq_evalI_concrete d5 [] (by decide) rfl (.bool true) (by rfl)
 
 end Cel.Props.C03
